@@ -553,6 +553,42 @@ func classifyFormatter(p *load.Program, et *ErrType, sh *TypeShape) {
 						}
 					}
 				}
+				// a module helper that receives the printer: its prints inside its own p.Detail() region (or all of
+				// them, when the call itself is inside the region) are detail prints of this layer, fed by the arguments
+				if h := sx.Callee(x); h != nil && h != f && h.Blocks != nil && p.InModule(h) && !x.Call.IsInvoke() {
+					pi := -1
+					for i, a := range x.Call.Args {
+						if isPrinter(a) {
+							pi = i
+						}
+					}
+					if pi >= 0 && pi < len(h.Params) {
+						hp := h.Params[pi]
+						hreg := detailRegion(h, hp)
+						det := inDetail(x.Block())
+						nDet := 0
+						sx.EachInstr(h, func(hin ssa.Instruction) {
+							hc, ok := hin.(*ssa.Call)
+							if !ok || !hc.Call.IsInvoke() || sx.Unspill(hc.Call.Value) != ssa.Value(hp) {
+								return
+							}
+							if m := hc.Call.Method.Name(); m != "Print" && m != "Printf" {
+								return
+							}
+							if det || hreg[hc.Block()] {
+								nDet++
+							} else {
+								sh.HeadOther = append(sh.HeadOther, "printed by "+load.FnName(h))
+							}
+						})
+						if nDet > 0 {
+							sh.DetailPrints += nDet
+							for _, a := range x.Call.Args {
+								markFields(fn, f, a, sh.DetailFields, 0)
+							}
+						}
+					}
+				}
 				if inDetail(x.Block()) {
 					for _, a := range x.Call.Args {
 						markFields(fn, f, a, sh.DetailFields, 0)
